@@ -192,8 +192,10 @@ NAME = "GetText(QualifiedName(ctx))"
 CTRL = '(%s == "RestController" || %s == "Controller")' % (NAME, NAME)
 MAPPING = "(" + " || ".join('%s == "%s"' % (NAME, n) for n in ["RequestMapping", "GetMapping", "PutMapping", "PostMapping", "DeleteMapping"]) + ")"
 for verb, names in [("GET", ["GetMapping", "RequestMethod.GET", "GET"]), ("PUT", ["PutMapping", "RequestMethod.PUT", "PUT"]),
-                    ("POST", ["PostMapping", "RequestMethod.POST", "POST"]), ("DELETE", ["DeleteMapping", "RequestMethod.DELETE", "DELETE"])]:
-    row(props=["C12"], func=API + "addApiMethod", params=["name"], kind="emits", target="globalstore:" + API + "currentRestAPI.HttpMethod", tag={"value": verb}, total=4,
+                    ("POST", ["PostMapping", "RequestMethod.POST", "POST"]), ("DELETE", ["DeleteMapping", "RequestMethod.DELETE", "DELETE"]),
+                    ("PATCH", ["PatchMapping", "RequestMethod.PATCH", "PATCH"]), ("HEAD", ["RequestMethod.HEAD", "HEAD"]),
+                    ("OPTIONS", ["RequestMethod.OPTIONS", "OPTIONS"]), ("TRACE", ["RequestMethod.TRACE", "TRACE"])]:
+    row(props=["C12"], func=API + "addApiMethod", params=["name"], kind="emits", target="globalstore:" + API + "currentRestAPI.HttpMethod", tag={"value": verb}, total=8,
         when=" || ".join('name == "%s"' % n for n in names), what="HTTP verb %s ⇔ annotation / method= value in {%s}" % (verb, ", ".join(names)))
 row(props=["C12"], func=API + "(JavaAPIListener).EnterAnnotation", params=["s", "ctx"], kind="emits", target="globalstore:" + API + "isSpringRestController", tag={}, total=1,
     when="QualifiedName(ctx) != nil && " + CTRL, fields={"value": "true"}, what="controller ⇔ annotated @RestController or @Controller")
@@ -454,6 +456,12 @@ IFACE = "lookup(idmap, clz.Implements[0])"
 row(props=["C03"], func="pkg/domain/core_domain.BuildDIMap", params=["identifiers", "idmap"], kind="emits", target="mapstore:makemap1", tag={}, total=1, each={"as": "clz,ann"},
     when="*", fields={"key": '%s.Package + "." + %s.NodeName' % (IFACE, IFACE), "value": 'clz.Package + "." + clz.NodeName'},
     what="the injection table maps an interface to the component that implements it (the registered implementation the call graph substitutes), not to itself")
+
+for nm, base in [("PomXmlFilter", "pom.xml"), ("BuildGradleFilter", "build.gradle")]:
+    row(props=["C19"], func="var:pkg/adapter/cocafile." + nm, params=["path"], kind="returns", expr='base(path) == "%s"' % base,
+        what="a build manifest is a file named %s, not any file whose name ends that way (dependency-reduced-pom.xml, extra-build.gradle)" % base)
+row(props=["C20"], func="varfield:analysis/python/app.analysisCmd.Run", params=["cmd", "args"], kind="callarg", callee="pkg/application/analysis.CommonAnalysis", arg=3,
+    expr='global("pkg/adapter/cocafile.PythonFileFilter")', what="the Python analysis reads Python files")
 
 json.dump({"e5": rows}, open(os.path.join(os.path.dirname(os.path.dirname(os.path.abspath(__file__))), "spec", "e5.json"), "w"), indent=1, ensure_ascii=False)
 print(len(rows), "rows")
